@@ -66,21 +66,19 @@ Proof.
   nra.
 Qed.
 
-Lemma border_abstract (T D P dc rr d1 d2 d3 d4 d5 : R) :
-  0 <= T -> 0 <= D -> 0 <= P -> D <= T + P ->
+(* the value of the bound expression from above, in terms of the two inputs only *)
+Lemma border_value (dc rr d1 d2 d3 d4 d5 : R) :
   0 <= dc -> 0 <= rr ->
-  Rabs (dc - D) <= e * D -> P * (1 - e) <= rr ->
   Rabs d1 <= u -> Rabs d2 <= u -> Rabs d3 <= u -> Rabs d4 <= u -> Rabs d5 <= u ->
   let s := (dc + rr) * (1 + d1) in
   let m1 := s * (2 * u) * (1 + d2) in
   let m := m1 * K * (1 + d3) in
   let x := (dc - rr) * (1 + d4) in
   let b := (x - m) * (1 + d5) in
-  b <= T.
+  b <= 0 \/ b <= dc - rr + 3 * u * (dc + rr) - 2 * (K * u) * (1 - 3 * u) * (dc + rr).
 Proof.
-  intros HT HD HP Htri Hdc Hrr HdcD HrrP H1 H2 H3 H4 H5 s m1 m x b.
+  intros Hdc Hrr H1 H2 H3 H4 H5 s m1 m x b.
   assert (Hu32 : u <= 1/32) by lra.
-  assert (He16 : e <= 1/16) by lra.
   set (S := dc + rr). assert (HS : 0 <= S) by (unfold S; lra).
   assert (HK : 0 <= K * u) by lra.
   (* the margin from below *)
@@ -105,6 +103,34 @@ Proof.
         + replace (- u * (dc - rr)) with (u * (rr - dc)) by ring.
           apply Rmult_le_compat_l; unfold S; lra. }
     lra. }
+  apply Rabs_le_both in H5.
+  destruct (Rle_or_lt (x - m) 0) as [Hneg | Hpos].
+  - left. unfold b. replace 0 with (0 * (1 + d5)) by ring. apply Rmult_le_compat_r; lra.
+  - right. assert (Hb : b <= (x - m) + u * (2 * S)).
+    { unfold b. assert (d5 * (x - m) <= u * (x - m)) by (apply Rmult_le_compat_r; lra).
+      assert (x - m <= 2 * S).
+      { assert (0 <= m).
+        { eapply Rle_trans; [|exact Hm]. apply Rmult_le_pos; [apply Rmult_le_pos; lra | exact HS]. }
+        assert (u * S <= S) by nra. unfold S in *. lra. }
+      assert (u * (x - m) <= u * (2 * S)) by (apply Rmult_le_compat_l; lra). lra. }
+    fold S. lra.
+Qed.
+
+Lemma border_abstract (T D P dc rr d1 d2 d3 d4 d5 : R) :
+  0 <= T -> 0 <= D -> 0 <= P -> D <= T + P ->
+  0 <= dc -> 0 <= rr ->
+  Rabs (dc - D) <= e * D -> P * (1 - e) <= rr ->
+  Rabs d1 <= u -> Rabs d2 <= u -> Rabs d3 <= u -> Rabs d4 <= u -> Rabs d5 <= u ->
+  let s := (dc + rr) * (1 + d1) in
+  let m1 := s * (2 * u) * (1 + d2) in
+  let m := m1 * K * (1 + d3) in
+  let x := (dc - rr) * (1 + d4) in
+  let b := (x - m) * (1 + d5) in
+  b <= T.
+Proof.
+  intros HT HD HP Htri Hdc Hrr HdcD HrrP H1 H2 H3 H4 H5 s m1 m x b.
+  assert (He16 : e <= 1/16) by lra.
+  set (S := dc + rr). assert (HS : 0 <= S) by (unfold S; lra).
   (* true distances from the computed ones *)
   apply Rabs_le_both in HdcD.
   assert (HD1 : dc - e * dc <= D).
@@ -121,22 +147,13 @@ Proof.
     replace (rr * (1 + 2 * e)) with (rr + 2 * e * rr) in * by ring. lra. }
   assert (HT1 : dc - rr - 2 * e * S <= T).
   { assert (e * dc <= 2 * e * dc) by nra. unfold S. lra. }
-  apply Rabs_le_both in H5.
-  destruct (Rle_or_lt (x - m) 0) as [Hneg | Hpos].
-  - unfold b. apply Rle_trans with 0; [|exact HT].
-    replace 0 with (0 * (1 + d5)) by ring. apply Rmult_le_compat_r; lra.
-  - assert (Hb : b <= (x - m) + u * (2 * S)).
-    { unfold b. assert (d5 * (x - m) <= u * (x - m)) by (apply Rmult_le_compat_r; lra).
-      assert (x - m <= 2 * S).
-      { assert (0 <= m).
-        { eapply Rle_trans; [|exact Hm]. apply Rmult_le_pos; [apply Rmult_le_pos; lra | exact HS]. }
-        assert (u * S <= S) by nra. unfold S in *. lra. }
-      assert (u * (x - m) <= u * (2 * S)) by (apply Rmult_le_compat_l; lra). lra. }
-    (* b <= dc - rr + 3 u S - 2 K u (1 - 3u) S  and  T >= dc - rr - 2 e S *)
-    assert (Hfin : 3 * u * S + 2 * e * S <= 2 * (K * u) * (1 - 3 * u) * S).
-    { replace (3 * u * S + 2 * e * S) with ((3 * u + 2 * e) * S) by ring.
-      apply Rmult_le_compat_r; [exact HS|]. nra. }
-    lra.
+  destruct (border_value dc rr d1 d2 d3 d4 d5 Hdc Hrr H1 H2 H3 H4 H5) as [Hb | Hb];
+    fold s m1 m x b in Hb; [lra|]. fold S in Hb.
+  (* b <= dc - rr + 3 u S - 2 K u (1 - 3u) S  and  T >= dc - rr - 2 e S *)
+  assert (Hfin : 3 * u * S + 2 * e * S <= 2 * (K * u) * (1 - 3 * u) * S).
+  { replace (3 * u * S + 2 * e * S) with ((3 * u + 2 * e) * S) by ring.
+    apply Rmult_le_compat_r; [exact HS|]. nra. }
+  lra.
 Qed.
 End Abstract.
 
@@ -328,26 +345,22 @@ Proof.
   eapply Rle_trans; [|exact B]. unfold w. nra.
 Qed.
 
-(** the computed Euclidean distance of two points of dimension n >= 1 has relative error at most (n+2)u *)
-Lemma l2_dist_std_error (a b : list R) :
-  length a = length b -> (INR (length a) + 2) * u <= 1 / 8 ->
-  Rabs (dist SM_ops L2 a b - dist R_ops L2 a b) <= (INR (length a) + 2) * u * dist R_ops L2 a b.
+(** the computed Euclidean distance d' of two points of dimension n >= 1 against the true one D,
+    z = (n+2)u:  (1-u)(1 - z/2 - z^2/2) D <= d' <= (1+u)(1 + z/2 + z^2) D *)
+Lemma l2_dist_std_bounds (a b : list R) :
+  length a = length b -> (1 <= length a)%nat -> (INR (length a) + 2) * u <= 1 / 8 ->
+  let z := (INR (length a) + 2) * u in
+  (1 - u) * ((1 - z / 2 - z * z / 2) * dist R_ops L2 a b) <= dist SM_ops L2 a b
+  /\ dist SM_ops L2 a b <= (1 + u) * ((1 + z / 2 + z * z) * dist R_ops L2 a b).
 Proof.
-  intros L Hz.
-  destruct a as [|x0 a0] eqn:Ea.
-  { destruct b; [|discriminate]. simpl. unfold sq_l2. simpl. rewrite sqrt_0.
-    destruct (rnd_delta 0) as [d [_ E]]. rewrite E. rewrite Rmult_0_l, Rminus_0_r, Rabs_R0. lra. }
-  rewrite <- Ea in *. assert (N1 : 1 <= INR (length a)).
-  { rewrite Ea. simpl length. rewrite S_INR. assert (0 <= INR (length a0)) by apply pos_INR. lra. }
-  clear Ea x0 a0.
-  assert (N0 : 0 <= INR (length a)) by apply pos_INR.
+  intros L Hn Hz z0.
+  assert (N1 : 1 <= INR (length a)) by (change 1 with (INR 1); apply le_INR; exact Hn).
   assert (Hu1 : u <= 1) by nra.
   set (m := (length a + 2)%nat).
   assert (Em : INR m = INR (length a) + 2) by (unfold m; rewrite plus_INR; simpl; lra).
-  set (z := (INR (length a) + 2) * u) in *.
+  subst z0. set (z := (INR (length a) + 2) * u) in *.
   assert (Ez : INR m * u = z) by (rewrite Em; reflexivity).
-  assert (Z3 : 3 * u <= z) by (unfold z; nra).
-  assert (Z0 : 0 <= z) by lra.
+  assert (Z0 : 0 <= z) by (unfold z; nra).
   destruct (sq_l2_std_bounds a b L Hu1) as [B1 B2]. fold m in B1, B2.
   simpl dist. change (sqrt SM_ops) with (fun x => rnd (R_sqrt.sqrt x)). cbv beta.
   set (S' := sq_l2 SM_ops a b) in *. set (S := sq_l2 R_ops a b) in *.
@@ -363,14 +376,33 @@ Proof.
   assert (Lo : (1 - z / 2 - z * z / 2) * D <= R_sqrt.sqrt S').
   { eapply Rle_trans; [|apply sqrt_le_1_alt; exact B1]. rewrite sqrt_mult by assumption.
     apply Rmult_le_compat_r; [exact D0|]. rewrite <- Ez. apply sqrt_pow_lower; lra. }
-  assert (U2 : rnd (R_sqrt.sqrt S') <= (1 + z) * D).
-  { eapply Rle_trans; [exact R2|].
-    apply Rle_trans with ((1 + u) * ((1 + z / 2 + z * z) * D)); [apply Rmult_le_compat_l; lra|].
-    rewrite <- Rmult_assoc. apply Rmult_le_compat_r; [exact D0|]. nra. }
-  assert (L2' : (1 - z) * D <= rnd (R_sqrt.sqrt S')).
-  { eapply Rle_trans; [|exact R1].
-    apply Rle_trans with ((1 - u) * ((1 - z / 2 - z * z / 2) * D)); [|apply Rmult_le_compat_l; lra].
-    rewrite <- Rmult_assoc. apply Rmult_le_compat_r; [exact D0|]. nra. }
+  split.
+  - eapply Rle_trans; [|exact R1]. apply Rmult_le_compat_l; lra.
+  - eapply Rle_trans; [exact R2|]. apply Rmult_le_compat_l; lra.
+Qed.
+
+(** ... hence its relative error is at most (n+2)u *)
+Lemma l2_dist_std_error (a b : list R) :
+  length a = length b -> (INR (length a) + 2) * u <= 1 / 8 ->
+  Rabs (dist SM_ops L2 a b - dist R_ops L2 a b) <= (INR (length a) + 2) * u * dist R_ops L2 a b.
+Proof.
+  intros L Hz.
+  destruct a as [|x0 a0] eqn:Ea.
+  { destruct b; [|discriminate]. simpl. unfold sq_l2. simpl. rewrite sqrt_0.
+    destruct (rnd_delta 0) as [d [_ E]]. rewrite E. rewrite Rmult_0_l, Rminus_0_r, Rabs_R0. lra. }
+  rewrite <- Ea in *.
+  assert (Hn : (1 <= length a)%nat) by (rewrite Ea; simpl; lia).
+  assert (N1 : 1 <= INR (length a)) by (change 1 with (INR 1); apply le_INR; exact Hn).
+  clear Ea x0 a0.
+  destruct (l2_dist_std_bounds a b L Hn Hz) as [Lo Up]. cbv zeta in Lo, Up.
+  set (z := (INR (length a) + 2) * u) in *.
+  assert (Z3 : 3 * u <= z) by (unfold z; nra).
+  set (D := dist R_ops L2 a b) in *. assert (D0 : 0 <= D) by (unfold D; apply dist_nonneg).
+  set (d' := dist SM_ops L2 a b) in *. clearbody d' D z.
+  assert (U2 : d' <= (1 + z) * D).
+  { eapply Rle_trans; [exact Up|]. rewrite <- Rmult_assoc. apply Rmult_le_compat_r; [exact D0|]. nra. }
+  assert (L2' : (1 - z) * D <= d').
+  { eapply Rle_trans; [|exact Lo]. rewrite <- Rmult_assoc. apply Rmult_le_compat_r; [exact D0|]. nra. }
   apply Rabs_le. lra.
 Qed.
 
@@ -415,6 +447,345 @@ Proof.
   apply (node_border_std L2 z q t p); auto; try lra; try lia.
   - eapply Rle_trans; [|exact Hr].
     assert (0 <= (1 - z) * dist R_ops L2 (fst p) (center t)) by (apply Rmult_le_pos; lra). lra.
+Qed.
+
+(** ** L2, computed against computed: the reduced bound of a node never exceeds the COMPUTED reduced
+    distance from the query to a point stored below the node (the two numbers the search compares) *)
+Lemma border_bound_std_value (n : nat) (dc rr : R) :
+  (INR n + 4) * u <= 1 / 16 -> 0 <= dc -> 0 <= rr ->
+  let bb := border_bound SM_ops (2 * u) n dc rr in
+  0 <= bb /\
+  (bb = 0 \/ bb <= dc - rr + 3 * u * (dc + rr) - 2 * ((INR n + 4) * u) * (1 - 3 * u) * (dc + rr)).
+Proof.
+  intros HKu Hdc Hrr. unfold border_bound. simpl.
+  replace (INR (N.to_nat (N.of_nat (n + 4)))) with (INR n + 4)
+    by (rewrite Nat2N.id, plus_INR; simpl; lra).
+  destruct (rnd_delta (dc + rr)) as [d1 [B1 E1]].
+  destruct (rnd_delta (rnd (dc + rr) * (2 * u))) as [d2 [B2 E2]].
+  destruct (rnd_delta (rnd (rnd (dc + rr) * (2 * u)) * (INR n + 4))) as [d3 [B3 E3]].
+  destruct (rnd_delta (dc - rr)) as [d4 [B4 E4]].
+  destruct (rnd_delta (rnd (dc - rr) - rnd (rnd (rnd (dc + rr) * (2 * u)) * (INR n + 4)))) as [d5 [B5 E5]].
+  assert (N0 : 0 <= INR n) by apply pos_INR.
+  assert (He : 0 <= (INR n + 2) * u) by (apply Rmult_le_pos; lra).
+  assert (Hcov : 2 * ((INR n + 2) * u) + 4 * u <= 2 * (INR n + 4) * u) by lra.
+  assert (Hb := border_value u ((INR n + 2) * u) (INR n + 4) u_pos He HKu Hcov dc rr d1 d2 d3 d4 d5
+                 Hdc Hrr B1 B2 B3 B4 B5).
+  cbv zeta in Hb. rewrite E5, E4, E3, E2, E1.
+  match goal with |- context [Rltb ?b 0] => destruct (Rltb b 0) eqn:E end.
+  - split; [lra | left; reflexivity].
+  - apply Rltb_false in E. split; [exact E|]. destruct Hb as [Hb | Hb]; [left; lra | right; exact Hb].
+Qed.
+
+Lemma node_bound_l2_computed (q : list R) (t : btree R) (p : list R * N) :
+  let n := length (center t) in
+  (1 <= n)%nat -> (INR n + 4) * u <= 1 / 16 ->
+  (forall p', In p' (tree_points t) -> dist SM_ops L2 (fst p') (center t) <= radius t) ->
+  In p (tree_points t) -> length q = n -> length (fst p) = n ->
+  node_bound SM_ops (2 * u) L2 q t <= rdist SM_ops L2 q (fst p).
+Proof.
+  intros n Hn1 HKu Hinv Hp Lq Lp.
+  assert (N1 : 1 <= INR n) by (change 1 with (INR 1); apply le_INR; exact Hn1).
+  assert (Hz8 : (INR n + 2) * u <= 1 / 8) by nra.
+  assert (Hu1 : u <= 1) by nra.
+  assert (Lqp : length q = length (fst p)) by lia.
+  (* the three computed quantities against the true ones *)
+  assert (BD := l2_dist_std_bounds q (center t) Lq). rewrite Lq in BD.
+  specialize (BD Hn1 Hz8). cbv zeta in BD. destruct BD as [LoD UpD].
+  assert (BP := l2_dist_std_bounds (fst p) (center t) Lp). rewrite Lp in BP.
+  specialize (BP Hn1 Hz8). cbv zeta in BP. destruct BP as [LoP _].
+  assert (Hr : dist SM_ops L2 (fst p) (center t) <= radius t) by (apply Hinv; exact Hp).
+  destruct (sq_l2_std_bounds q (fst p) Lqp Hu1) as [LoS _]. rewrite Lq in LoS.
+  assert (Bern := bern_lower (n + 2) Hu1). rewrite plus_INR in Bern. simpl INR in Bern.
+  assert (Htri := dist_triangle L2 q (fst p) (center t) Lqp Lp).
+  assert (ET : dist R_ops L2 q (fst p) * dist R_ops L2 q (fst p) = sq_l2 R_ops q (fst p)).
+  { exact (to_r_dist L2 q (fst p)). }
+  assert (T0 := dist_nonneg L2 q (fst p)). assert (P0 := dist_nonneg L2 (fst p) (center t)).
+  assert (D0 := dist_nonneg L2 q (center t)).
+  assert (S20 : 0 <= sq_l2 R_ops q (fst p)) by apply (rdist_nonneg L2).
+  rewrite node_bound_border. fold n.
+  set (dc := dist SM_ops L2 q (center t)) in *. set (rr := radius t) in *.
+  set (bb := border_bound SM_ops (2 * u) n dc rr).
+  change (rnd (bb * bb) <= sq_l2 SM_ops q (fst p)).
+  set (dp := dist SM_ops L2 (fst p) (center t)) in *.
+  set (D := dist R_ops L2 q (center t)) in *. set (P := dist R_ops L2 (fst p) (center t)) in *.
+  set (T := dist R_ops L2 q (fst p)) in *.
+  set (T2 := sq_l2 R_ops q (fst p)) in *. set (s' := sq_l2 SM_ops q (fst p)) in *.
+  set (z := (INR n + 2) * u) in *.
+  assert (Z3 : 3 * u <= z) by (unfold z; nra).
+  assert (Z16 : z + 2 * u <= 1 / 16) by (unfold z; lra).
+  assert (EK : (INR n + 4) * u = z + 2 * u) by (unfold z; ring).
+  assert (U0 := u_pos).
+  assert (Hs' : (1 - z) * T2 <= s').
+  { eapply Rle_trans; [|exact LoS]. apply Rmult_le_compat_r; [exact S20|].
+    replace (1 - z) with (1 - (INR n + (1 + 1)) * u) by (unfold z; ring). exact Bern. }
+  clearbody dc rr dp D P T T2 s' z. clear Bern LoS Hinv Hp Lq Lp Lqp Hz8.
+  (* the computed numbers are non-negative *)
+  set (al := 1 + z / 2 + z * z) in *. set (be := 1 - z / 2 - z * z / 2) in *.
+  assert (Be0 : 0 <= be) by (unfold be; nra). assert (Be1 : be <= 1) by (unfold be; nra).
+  assert (Al1 : 1 <= al) by (unfold al; nra).
+  assert (dp0 : 0 <= dp).
+  { eapply Rle_trans; [|exact LoP]. apply Rmult_le_pos; [lra | apply Rmult_le_pos; assumption]. }
+  assert (rr0 : 0 <= rr) by lra.
+  assert (dc0 : 0 <= dc).
+  { eapply Rle_trans; [|exact LoD]. apply Rmult_le_pos; [lra | apply Rmult_le_pos; assumption]. }
+  clear LoD.
+  (* true distances from the computed ones, without divisions *)
+  set (la := 1 - u - (z / 2 + z * z)).
+  assert (HD : la * dc <= D).
+  { assert (La0 : 0 <= la) by (unfold la; nra).
+    assert (E1 : la * ((1 + u) * al) <= 1).
+    { unfold la, al. set (a := z / 2 + z * z). assert (0 <= a) by (unfold a; nra).
+      replace (1 + z / 2 + z * z) with (1 + a) by (unfold a; ring).
+      replace ((1 - u - a) * ((1 + u) * (1 + a))) with (1 - (u * u + a * a + u * a + u * a * (u + a))) by ring.
+      assert (0 <= u * u + a * a + u * a + u * a * (u + a)) by nra. lra. }
+    apply Rle_trans with (la * ((1 + u) * (al * D))); [apply Rmult_le_compat_l; assumption|].
+    replace (la * ((1 + u) * (al * D))) with (la * ((1 + u) * al) * D) by ring.
+    rewrite <- (Rmult_1_l D) at 2. apply Rmult_le_compat_r; assumption. }
+  set (w := u + z / 2 + z * z / 2). set (mu := 1 + w + 2 * (w * w)).
+  assert (W0 : 0 <= w) by (unfold w; nra). assert (W1 : w <= 1 / 8) by (unfold w; nra).
+  assert (HP : P <= mu * rr).
+  { assert (E1 : 1 - w <= (1 - u) * be) by (unfold w, be; nra).
+    assert (E2 : 1 <= mu * (1 - w)).
+    { unfold mu. replace ((1 + w + 2 * (w * w)) * (1 - w)) with (1 + w * w * (1 - 2 * w)) by ring.
+      assert (0 <= w * w * (1 - 2 * w)) by (apply Rmult_le_pos; nra). lra. }
+    assert (Mu0 : 0 <= mu) by (unfold mu; nra).
+    apply Rle_trans with (mu * (1 - w) * P); [rewrite <- (Rmult_1_l P) at 1; apply Rmult_le_compat_r; assumption|].
+    rewrite Rmult_assoc. apply Rmult_le_compat_l; [exact Mu0|].
+    apply Rle_trans with ((1 - u) * be * P); [apply Rmult_le_compat_r; assumption|].
+    rewrite Rmult_assoc. lra. }
+  set (ga := be - u).
+  assert (Ga0 : 0 <= ga) by (unfold ga, be; nra). assert (Ga1 : ga <= 1) by (unfold ga; lra).
+  destruct (border_bound_std_value n dc rr HKu dc0 rr0) as [B0 BV]. fold bb in B0, BV.
+  rewrite EK in BV. clearbody bb.
+  set (c2 := z + 3 / 2 * (z * z) + 2 * u).
+  assert (C20 : 0 <= c2) by (unfold c2; nra).
+  assert (HbT : bb <= ga * T).
+  { destruct BV as [BV | BV]; [rewrite BV; apply Rmult_le_pos; assumption|].
+    apply Rle_trans with (ga * (D - P)); [|apply Rmult_le_compat_l; lra].
+    assert (G1 : 1 - c2 <= ga * la).
+    { unfold ga, be, la, c2.
+      set (x := z / 2 + z * z / 2 + u). set (y := u + (z / 2 + z * z)).
+      assert (0 <= x) by (unfold x; nra). assert (0 <= y) by (unfold y; nra).
+      replace (1 - z / 2 - z * z / 2 - u) with (1 - x) by (unfold x; ring).
+      replace (1 - u - (z / 2 + z * z)) with (1 - y) by (unfold y; ring).
+      replace (1 - (z + 3 / 2 * (z * z) + 2 * u)) with (1 - x - y) by (unfold x, y; field).
+      assert (0 <= x * y) by (apply Rmult_le_pos; assumption). nra. }
+    assert (G2 : mu <= 1 + c2).
+    { unfold mu, c2. assert (w * w <= w * (1 / 8)) by (apply Rmult_le_compat_l; assumption).
+      unfold w in *. nra. }
+    assert (G3 : ga * la * dc <= ga * D).
+    { rewrite Rmult_assoc. apply Rmult_le_compat_l; assumption. }
+    assert (G4 : ga * P <= mu * rr).
+    { apply Rle_trans with (1 * P); [apply Rmult_le_compat_r; assumption | lra]. }
+    assert (G5 : (1 - c2) * dc <= ga * la * dc) by (apply Rmult_le_compat_r; assumption).
+    assert (G6 : mu * rr <= (1 + c2) * rr) by (apply Rmult_le_compat_r; assumption).
+    assert (G7 : 3 * u * (dc + rr) - 2 * (z + 2 * u) * (1 - 3 * u) * (dc + rr) <= - c2 * (dc + rr)).
+    { replace (3 * u * (dc + rr) - 2 * (z + 2 * u) * (1 - 3 * u) * (dc + rr))
+        with ((3 * u - 2 * (z + 2 * u) * (1 - 3 * u)) * (dc + rr)) by ring.
+      apply Rmult_le_compat_r; [lra|]. unfold c2. nra. }
+    replace (ga * (D - P)) with (ga * D - ga * P) by ring.
+    replace ((1 - c2) * dc) with (dc - c2 * dc) in G5 by ring.
+    replace ((1 + c2) * rr) with (rr + c2 * rr) in G6 by ring.
+    replace (- c2 * (dc + rr)) with (- (c2 * dc) - c2 * rr) in G7 by ring. lra. }
+  assert (Hfin : (1 + u) * (ga * ga) <= 1 - z).
+  { assert (E1 : ga <= be * (1 - u)) by (unfold ga; nra).
+    assert (E2 : ga * ga <= (be * (1 - u)) * (be * (1 - u))) by (apply Rmult_le_compat; nra).
+    assert (E3 : be * be <= 1 - z).
+    { unfold be. replace ((1 - z / 2 - z * z / 2) * (1 - z / 2 - z * z / 2))
+        with (1 - z - (z * z) * (3 / 4 - z / 2 - z * z / 4)) by field.
+      assert (0 <= (z * z) * (3 / 4 - z / 2 - z * z / 4)) by (apply Rmult_le_pos; nra). lra. }
+    assert (E4 : (1 + u) * ((1 - u) * (1 - u)) <= 1) by nra.
+    assert (B20 : 0 <= be * be) by nra.
+    apply Rle_trans with ((1 + u) * ((be * (1 - u)) * (be * (1 - u)))); [apply Rmult_le_compat_l; lra|].
+    replace ((1 + u) * (be * (1 - u) * (be * (1 - u)))) with ((be * be) * ((1 + u) * ((1 - u) * (1 - u)))) by ring.
+    apply Rle_trans with ((be * be) * 1); [apply Rmult_le_compat_l; assumption | lra]. }
+  assert (Q0 : 0 <= bb * bb) by nra.
+  destruct (rnd_bounds (bb * bb) Q0) as [_ Ub]. eapply Rle_trans; [exact Ub|].
+  eapply Rle_trans; [|exact Hs'].
+  assert (Hsq : bb * bb <= (ga * T) * (ga * T)) by (apply Rmult_le_compat; lra).
+  apply Rle_trans with ((1 + u) * ((ga * T) * (ga * T))); [apply Rmult_le_compat_l; lra|].
+  replace ((1 + u) * (ga * T * (ga * T))) with ((1 + u) * (ga * ga) * (T * T)) by ring.
+  rewrite ET. apply Rmult_le_compat_r; assumption.
+Qed.
+(** ** L1 and Linf: no square root, the reduced distance is the distance *)
+(* the bound against a computed distance, for metrics whose computed values carry a relative error
+   of at most m roundings (m <= dim + 1) *)
+Lemma border_bound_computed_lin (n m : nat) (dc rr D P T rdqp : R) :
+  (INR n + 4) * u <= 1 / 16 -> INR m <= INR n + 1 ->
+  0 <= D -> 0 <= P -> 0 <= T -> D <= T + P -> 0 <= dc -> 0 <= rr ->
+  dc <= (1 + u) ^ m * D -> (1 - u) ^ m * P <= rr -> (1 - u) ^ m * T <= rdqp ->
+  border_bound SM_ops (2 * u) n dc rr <= rdqp.
+Proof.
+  intros HKu Hm D0 P0 T0 Htri dc0 rr0 HdcD HrrP HT.
+  assert (N0 : 0 <= INR n) by apply pos_INR. assert (M0 : 0 <= INR m) by apply pos_INR.
+  assert (U0 := u_pos). assert (Hu1 : u <= 1) by nra.
+  set (z := INR m * u). assert (Z0 : 0 <= z) by (unfold z; nra).
+  assert (Z16 : z + 3 * u <= 1 / 16) by (unfold z; nra).
+  assert (Bern := bern_lower m Hu1). fold z in Bern.
+  assert (Up := pow_upper m). fold z in Up.
+  assert (H0 : 0 <= (1 - u) ^ m) by (apply pow_le; lra).
+  assert (H1 : (1 - u) ^ m <= 1) by (apply (pow_le1_anti (1 - u)) with (m := 0%nat); [lra | lia]).
+  assert (G0 : 0 <= (1 + u) ^ m) by (apply pow_le; lra).
+  destruct (border_bound_std_value n dc rr HKu dc0 rr0) as [B0 BV].
+  set (bb := border_bound SM_ops (2 * u) n dc rr) in *. clearbody bb.
+  eapply Rle_trans; [|exact HT].
+  destruct BV as [BV | BV].
+  { rewrite BV. apply Rmult_le_pos; assumption. }
+  (* D >= (1 - z) dc *)
+  assert (HD : (1 - z) * dc <= D).
+  { apply Rle_trans with ((1 - z) * ((1 + u) ^ m * D)); [apply Rmult_le_compat_l; lra|].
+    replace ((1 - z) * ((1 + u) ^ m * D)) with ((1 + u) ^ m * (1 - z) * D) by ring.
+    rewrite <- (Rmult_1_l D) at 2. apply Rmult_le_compat_r; assumption. }
+  assert (HhD : (1 - 2 * z) * dc <= (1 - u) ^ m * D).
+  { apply Rle_trans with ((1 - z) * ((1 - z) * dc)).
+    - replace ((1 - z) * ((1 - z) * dc)) with ((1 - 2 * z + z * z) * dc) by ring.
+      apply Rmult_le_compat_r; [exact dc0 | nra].
+    - apply Rmult_le_compat; try lra. apply Rmult_le_pos; lra. }
+  assert (HhT : (1 - u) ^ m * (D - P) <= (1 - u) ^ m * T) by (apply Rmult_le_compat_l; lra).
+  replace ((1 - u) ^ m * (D - P)) with ((1 - u) ^ m * D - (1 - u) ^ m * P) in HhT by ring.
+  assert (EK : (INR n + 4) * u >= z + 3 * u) by (unfold z; nra).
+  assert (G7 : 3 * u * (dc + rr) - 2 * ((INR n + 4) * u) * (1 - 3 * u) * (dc + rr) <= - (2 * z) * dc).
+  { set (S := dc + rr). assert (S0 : 0 <= S) by (unfold S; lra).
+    assert (A1 : 2 * (z + 3 * u) * (1 - 3 * u) * S <= 2 * ((INR n + 4) * u) * (1 - 3 * u) * S).
+    { apply Rmult_le_compat_r; [exact S0|]. apply Rmult_le_compat_r; lra. }
+    assert (A2 : (3 * u - 2 * (z + 3 * u) * (1 - 3 * u)) * S <= - (2 * z) * S).
+    { apply Rmult_le_compat_r; [exact S0|]. nra. }
+    assert (A3 : - (2 * z) * S <= - (2 * z) * dc) by (unfold S; nra).
+    lra. }
+  replace ((1 - 2 * z) * dc) with (dc - 2 * z * dc) in HhD by ring. lra.
+Qed.
+
+(* L1: the sequential sum of |x - y| *)
+Definition abt (x y : R) : R := Rabs (x - y).
+Lemma abt'_bounds x y : u <= 1 -> (1 - u) * abt x y <= Rabs (rnd (x - y)) <= (1 + u) * abt x y.
+Proof.
+  intros Hu1. destruct (rnd_delta (x - y)) as [d [B E]]. rewrite E. apply Rabs_le_both in B.
+  unfold abt. rewrite Rabs_mult. rewrite (Rabs_pos_eq (1 + d)) by lra.
+  assert (0 <= Rabs (x - y)) by apply Rabs_pos. split; rewrite (Rmult_comm _ (Rabs (x - y)));
+    apply Rmult_le_compat_l; lra.
+Qed.
+
+Lemma fold_l1_bounds : forall (a b : list R) (acc A : R) (j : nat),
+  length a = length b -> (1 <= j)%nat -> u <= 1 -> 0 <= A ->
+  (1 - u) ^ j * A <= acc <= (1 + u) ^ j * A ->
+  (1 - u) ^ (j + length a) * (A + ssum abt a b)
+    <= @fold2 R (fun acc x y => rnd (acc + Rabs (rnd (x - y)))) a b acc
+    <= (1 + u) ^ (j + length a) * (A + ssum abt a b).
+Proof.
+  induction a as [|x a IH]; intros [|y b] acc A j L Hj Hu1 HA Hacc; simpl in L; try discriminate.
+  - simpl. rewrite Nat.add_0_r, Rplus_0_r. exact Hacc.
+  - simpl fold2. simpl ssum. simpl length.
+    replace (j + S (length a))%nat with (S j + length a)%nat by lia.
+    replace (A + (abt x y + ssum abt a b)) with ((A + abt x y) + ssum abt a b) by ring.
+    assert (Ht : 0 <= abt x y) by (unfold abt; apply Rabs_pos).
+    destruct (abt'_bounds x y Hu1) as [T1 T2].
+    assert (Hh : 0 <= (1 - u) ^ j) by (apply pow_le; lra).
+    assert (Hh1 : (1 - u) ^ j <= (1 - u) ^ 1) by (apply pow_le1_anti; [lra | exact Hj]).
+    assert (Hg1 : (1 + u) ^ 1 <= (1 + u) ^ j) by (apply Rle_pow; [lra | exact Hj]).
+    simpl pow in Hh1, Hg1. rewrite Rmult_1_r in Hh1, Hg1.
+    assert (T0 : 0 <= Rabs (rnd (x - y))) by apply Rabs_pos.
+    assert (A0 : 0 <= acc) by (eapply Rle_trans; [|apply Hacc]; apply Rmult_le_pos; assumption).
+    assert (S0 : 0 <= acc + Rabs (rnd (x - y))) by lra.
+    destruct (rnd_bounds _ S0) as [R1 R2].
+    apply IH; auto; try lia; try lra.
+    split.
+    + eapply Rle_trans; [|exact R1]. simpl pow. rewrite Rmult_assoc.
+      apply Rmult_le_compat_l; [lra|].
+      assert ((1 - u) ^ j * abt x y <= (1 - u) * abt x y) by (apply Rmult_le_compat_r; assumption).
+      lra.
+    + eapply Rle_trans; [exact R2|]. simpl pow. rewrite Rmult_assoc.
+      apply Rmult_le_compat_l; [lra|].
+      assert ((1 + u) * abt x y <= (1 + u) ^ j * abt x y) by (apply Rmult_le_compat_r; assumption).
+      lra.
+Qed.
+
+Lemma l1d_std_bounds (a b : list R) : length a = length b -> u <= 1 ->
+  (1 - u) ^ (length a + 1) * l1d R_ops a b <= l1d SM_ops a b <= (1 + u) ^ (length a + 1) * l1d R_ops a b.
+Proof.
+  intros L Hu1. rewrite l1d_sum. change (fun x y : R => Rabs (x - y)) with abt.
+  unfold l1d. simpl.
+  assert (H := fold_l1_bounds a b 0 0 1 L (le_n 1) Hu1 (Rle_refl 0)).
+  rewrite !Rmult_0_r in H. specialize (H (conj (Rle_refl 0) (Rle_refl 0))).
+  rewrite Rplus_0_l in H. replace (length a + 1)%nat with (1 + length a)%nat by lia. exact H.
+Qed.
+
+(* Linf: the running maximum of |x - y| *)
+Lemma fold_linf_bounds : forall (a b : list R) (acc A : R),
+  length a = length b -> u <= 1 -> 0 <= A ->
+  (1 - u) * A <= acc <= (1 + u) * A ->
+  (1 - u) * Rmax A (smax a b)
+    <= @fold2 R (fun acc x y => let d := Rabs (rnd (x - y)) in if Rltb acc d then d else acc) a b acc
+    <= (1 + u) * Rmax A (smax a b).
+Proof.
+  induction a as [|x a IH]; intros [|y b] acc A L Hu1 HA Hacc; simpl in L; try discriminate.
+  - simpl. rewrite Rmax_left by lra. exact Hacc.
+  - simpl fold2. simpl smax. cbv zeta.
+    destruct (abt'_bounds x y Hu1) as [T1 T2]. unfold abt in T1, T2.
+    assert (Ht : 0 <= Rabs (x - y)) by apply Rabs_pos.
+    assert (Hs := smax_nonneg a b).
+    replace (Rmax A (Rmax (Rabs (x - y)) (smax a b))) with (Rmax (Rmax A (Rabs (x - y))) (smax a b))
+      by (symmetry; apply Rmax_assoc).
+    apply IH; auto; try lia.
+    + eapply Rle_trans; [exact HA | apply Rmax_l].
+    + destruct (Rltb acc (Rabs (rnd (x - y)))) eqn:E.
+      * apply Rltb_true in E. unfold Rmax. destruct (Rle_dec A (Rabs (x - y))); nra.
+      * apply Rltb_false in E. unfold Rmax. destruct (Rle_dec A (Rabs (x - y))); nra.
+Qed.
+
+Lemma linfd_std_bounds (a b : list R) : length a = length b -> u <= 1 ->
+  (1 - u) * linfd R_ops a b <= linfd SM_ops a b <= (1 + u) * linfd R_ops a b.
+Proof.
+  intros L Hu1. rewrite linfd_max. unfold linfd. simpl.
+  assert (H := fold_linf_bounds a b 0 0 L Hu1 (Rle_refl 0)).
+  rewrite !Rmult_0_r in H. specialize (H (conj (Rle_refl 0) (Rle_refl 0))).
+  rewrite Rmax_right in H by apply smax_nonneg. exact H.
+Qed.
+(** ** every provided metric: the reduced bound of a node never exceeds the computed reduced distance
+       from the query to a point stored below the node *)
+Lemma node_bound_computed (m : metric) (q : list R) (t : btree R) (p : list R * N) :
+  let n := length (center t) in
+  (1 <= n)%nat -> (INR n + 4) * u <= 1 / 16 ->
+  (forall p', In p' (tree_points t) -> dist SM_ops m (fst p') (center t) <= radius t) ->
+  In p (tree_points t) -> length q = n -> length (fst p) = n ->
+  node_bound SM_ops (2 * u) m q t <= rdist SM_ops m q (fst p).
+Proof.
+  destruct m; [| apply node_bound_l2_computed |].
+  - (* L1 *)
+    intros n Hn1 HKu Hinv Hp Lq Lp.
+    assert (U0 := u_pos). assert (N0 : 0 <= INR n) by apply pos_INR. assert (Hu1 : u <= 1) by nra.
+    assert (Lqp : length q = length (fst p)) by lia.
+    assert (Hr : dist SM_ops L1 (fst p) (center t) <= radius t) by (apply Hinv; exact Hp).
+    destruct (l1d_std_bounds q (center t) Lq Hu1) as [LoD UpD]. rewrite Lq in LoD, UpD.
+    destruct (l1d_std_bounds (fst p) (center t) Lp Hu1) as [LoP _]. rewrite Lp in LoP.
+    destruct (l1d_std_bounds q (fst p) Lqp Hu1) as [LoT _]. rewrite Lq in LoT.
+    assert (D0 := rdist_nonneg L1 q (center t)). assert (P0 := rdist_nonneg L1 (fst p) (center t)).
+    assert (T0 := rdist_nonneg L1 q (fst p)). simpl in D0, P0, T0.
+    assert (Htri := dist_triangle L1 q (fst p) (center t) Lqp Lp). simpl in Htri.
+    assert (H0 : 0 <= (1 - u) ^ (n + 1)) by (apply pow_le; lra).
+    rewrite node_bound_border. fold n. simpl to_r. simpl rdist. simpl dist in *.
+    apply (border_bound_computed_lin n (n + 1) _ _ (l1d R_ops q (center t)) (l1d R_ops (fst p) (center t)) (l1d R_ops q (fst p))); auto.
+    + rewrite plus_INR. simpl. lra.
+    + eapply Rle_trans; [|exact LoD]. apply Rmult_le_pos; assumption.
+    + eapply Rle_trans; [|exact Hr]. eapply Rle_trans; [|exact LoP]. apply Rmult_le_pos; assumption.
+    + lra.
+  - (* Linf *)
+    intros n Hn1 HKu Hinv Hp Lq Lp.
+    assert (U0 := u_pos). assert (N0 : 0 <= INR n) by apply pos_INR. assert (Hu1 : u <= 1) by nra.
+    assert (N1 : 1 <= INR n) by (change 1 with (INR 1); apply le_INR; exact Hn1).
+    assert (Lqp : length q = length (fst p)) by lia.
+    assert (Hr : dist SM_ops Linf (fst p) (center t) <= radius t) by (apply Hinv; exact Hp).
+    destruct (linfd_std_bounds q (center t) Lq Hu1) as [LoD UpD].
+    destruct (linfd_std_bounds (fst p) (center t) Lp Hu1) as [LoP _].
+    destruct (linfd_std_bounds q (fst p) Lqp Hu1) as [LoT _].
+    assert (D0 := rdist_nonneg Linf q (center t)). assert (P0 := rdist_nonneg Linf (fst p) (center t)).
+    assert (T0 := rdist_nonneg Linf q (fst p)). simpl in D0, P0, T0.
+    assert (Htri := dist_triangle Linf q (fst p) (center t) Lqp Lp). simpl in Htri.
+    rewrite node_bound_border. fold n. simpl to_r. simpl rdist. simpl dist in *.
+    apply (border_bound_computed_lin n 1 _ _ (linfd R_ops q (center t)) (linfd R_ops (fst p) (center t)) (linfd R_ops q (fst p))); auto;
+      simpl pow; rewrite ?Rmult_1_r; try lra.
+    + simpl. lra.
+    + eapply Rle_trans; [|exact LoD]. apply Rmult_le_pos; lra.
+    + eapply Rle_trans; [|exact Hr]. eapply Rle_trans; [|exact LoP]. apply Rmult_le_pos; lra.
 Qed.
 End StdModel.
 
@@ -589,3 +960,23 @@ Proof.
     + lra.
     + nra.
 Qed.
+
+(** * the underflow regime (finding F-C07-1): what the standard model leaves out *)
+(* batch {0, 60 * 2^-537} on the line, one leaf (leaf size 2), query 60.7002 * 2^-537, radius 2^-537:
+   squared distances are a few hundred quanta of 2^-1074, the computed centre distance is off by a
+   relative 3e-4, and the bound (1 quantum) reaches the reduced radius although the stored point
+   60 * 2^-537 has the computed reduced distance 0 from the query *)
+Definition uw_X : list (list PrimFloat.float) := [[0]; [0x1.ep-532]]%float.
+Definition uw_q : list PrimFloat.float := [0x1.e59a027525461p-532]%float.
+Definition uw_r : PrimFloat.float := 0x1p-537%float.
+Definition uw_t : btree PrimFloat.float := bt_new B64_ops L2 2 uw_X.
+
+Lemma underflow_witness :
+  tree_inv B64_ops L2 uw_t = true /\
+  map snd (linear_range B64_ops L2 uw_q uw_r uw_X) = [1%N] /\
+  map snd (bt_range B64_ops w_eps L2 uw_t 2 uw_q uw_r) = [] /\
+  range_ok B64_ops f64_biteq (dq_of B64_ops L2 uw_q) (to_r B64_ops L2 uw_r) uw_X
+           (bt_range B64_ops w_eps L2 uw_t 2 uw_q uw_r) = false /\
+  range_ok B64_ops f64_biteq (dq_of B64_ops L2 uw_q) (to_r B64_ops L2 uw_r) uw_X
+           (linear_range B64_ops L2 uw_q uw_r uw_X) = true.
+Proof. repeat split; vm_compute; reflexivity. Qed.
